@@ -37,6 +37,7 @@ type ppState struct {
 	Cst      []string `json:"cst"`
 	Pool     []string `json:"pool"`
 	Streams  []int    `json:"streams"`
+	Dqsum    int      `json:"dqsum"`
 	Nextqid  []int    `json:"nextqid"`
 	Reserved []int    `json:"reserved"`
 	Nqueue   []int    `json:"nqueue"`
@@ -460,7 +461,7 @@ func (r *ppRun) start(e int) {
 }
 
 // poolMaps reads the pool's two connection maps (unexported fields of another module) under the pool's lock
-func poolMaps(p *connpool.Pool) (busy, idle map[any]int) {
+func poolMaps(p *connpool.Pool) (busy, idle map[any]int, waiting int) {
 	v := reflect.ValueOf(p).Elem()
 	mu := (*sync.Mutex)(unsafe.Pointer(v.FieldByName("m").UnsafeAddr()))
 	mu.Lock()
@@ -474,43 +475,36 @@ func poolMaps(p *connpool.Pool) (busy, idle map[any]int) {
 		}
 		return out
 	}
-	return read("busyConns"), read("idleConns")
+	busy, idle = read("busyConns"), read("idleConns")
+	// callers queued on dials that are still in progress
+	f := v.FieldByName("dialingCalls")
+	f = reflect.NewAt(f.Type(), unsafe.Pointer(f.UnsafeAddr())).Elem()
+	for it := f.MapRange(); it.Next(); {
+		dc := it.Key().Elem()
+		dm := (*sync.Mutex)(unsafe.Pointer(dc.FieldByName("m").UnsafeAddr()))
+		dm.Lock()
+		waiting += int(dc.FieldByName("streamQueue").Int())
+		dm.Unlock()
+	}
+	return busy, idle, waiting
 }
 
 func (r *ppRun) project() ppState {
-	busy, idle := poolMaps(transport.VerifPipePool(r.t))
+	busy, idle, waiting := poolMaps(transport.VerifPipePool(r.t))
 	tclosed := transport.VerifPipePool(r.t).Status().Closed
+	if tclosed {
+		waiting = 0
+	}
+	// the harness's own view first; the connections are asked afterwards, without r.mu (their hooks take it
+	// while holding the connection's lock)
 	r.mu.Lock()
-	defer r.mu.Unlock()
-	s := ppState{Tclosed: tclosed, Cst: fill(r.ncon, "none"), Pool: fill(r.ncon, "x"), Streams: make([]int, r.ncon),
+	s := ppState{Tclosed: tclosed, Dqsum: waiting, Cst: fill(r.ncon, "none"), Pool: fill(r.ncon, "x"), Streams: make([]int, r.ncon),
 		Nextqid: make([]int, r.ncon), Reserved: make([]int, r.ncon), Nqueue: make([]int, r.ncon), Rl: append([]bool{}, r.rl...),
 		Pc: append([]string{}, r.pc...), C: make([]int, r.nex), Qid: make([]int, r.nex), Retry: append([]int{}, r.retry...),
 		Err: fill(r.nex, "none"), Res: append([]string{}, r.res...), Got: append([]int{}, r.got...), Ctxdone: append([]bool{}, r.ctxdone...)}
-	for i := 0; i < r.ncon; i++ {
-		switch r.dialst[i] {
-		case "none", "dialing", "failed":
-			s.Cst[i] = r.dialst[i]
-			continue
-		}
-		pc := r.pcs[i]
-		closed, nq, res, qids := transport.VerifPcState(pc)
-		s.Nextqid[i], s.Reserved[i], s.Nqueue[i] = nq-r.base, res, len(qids)
-		if closed {
-			s.Cst[i] = "closed"
-			if !r.conns[i].isClosed() {
-				s.Cst[i] = "closed (socket still open)"
-			}
-			continue
-		}
-		s.Cst[i] = "open"
-		if n, ok := busy[pc]; ok {
-			s.Pool[i], s.Streams[i] = "busy", n
-		} else if _, ok := idle[pc]; ok {
-			s.Pool[i] = "idle"
-		} else {
-			s.Pool[i] = "out"
-		}
-	}
+	dialst := append([]string{}, r.dialst...)
+	pcs := append([]any{}, r.pcs...)
+	conns := append([]*ppConn{}, r.conns...)
 	for e := 0; e < r.nex; e++ {
 		switch r.pc[e] {
 		case "add", "write", "sel", "del", "rel":
@@ -523,6 +517,32 @@ func (r *ppRun) project() ppState {
 		switch r.pc[e] {
 		case "del", "rel":
 			s.Err[e] = r.errk[e]
+		}
+	}
+	r.mu.Unlock()
+	for i := 0; i < r.ncon; i++ {
+		switch dialst[i] {
+		case "none", "dialing", "failed":
+			s.Cst[i] = dialst[i]
+			continue
+		}
+		pc := pcs[i]
+		closed, nq, res, qids := transport.VerifPcState(pc)
+		s.Nextqid[i], s.Reserved[i], s.Nqueue[i] = nq-r.base, res, len(qids)
+		if closed {
+			s.Cst[i] = "closed"
+			if !conns[i].isClosed() {
+				s.Cst[i] = "closed (socket still open)"
+			}
+			continue
+		}
+		s.Cst[i] = "open"
+		if n, ok := busy[pc]; ok {
+			s.Pool[i], s.Streams[i] = "busy", n
+		} else if _, ok := idle[pc]; ok {
+			s.Pool[i] = "idle"
+		} else {
+			s.Pool[i] = "out"
 		}
 	}
 	return s
@@ -539,6 +559,7 @@ func ppDiff(want, got ppState) []string {
 	add("cst", want.Cst, got.Cst)
 	add("pool", want.Pool, got.Pool)
 	add("streams", want.Streams, got.Streams)
+	add("dqsum", want.Dqsum, got.Dqsum)
 	add("nextqid", want.Nextqid, got.Nextqid)
 	add("reserved", want.Reserved, got.Reserved)
 	add("nqueue", want.Nqueue, got.Nqueue)
@@ -756,11 +777,29 @@ func modePReplay(file string, stepTimeout time.Duration) {
 			deadline := time.Now().Add(stepTimeout)
 			var d []string
 			var got ppState
+			altSeen, isAlt := 0, false
 			for spin := 0; ; spin++ {
 				got = r.project()
 				d = ppDiff(want, got)
 				if len(d) == 0 || time.Now().After(deadline) {
 					break
+				}
+				// the pool's map order chose another connection than the behaviour did: the code sits in another
+				// successor of the same action (seen on three polls in a row, so it is not a state in passing)
+				hit := false
+				for _, a := range st.Alts {
+					if len(ppDiff(f.States[a], got)) == 0 {
+						hit = true
+					}
+				}
+				if hit {
+					altSeen++
+					if altSeen >= 3 && spin >= 50 {
+						isAlt = true
+						break
+					}
+				} else {
+					altSeen = 0
 				}
 				if spin < 50 {
 					time.Sleep(20 * time.Microsecond)
@@ -770,7 +809,6 @@ func modePReplay(file string, stepTimeout time.Duration) {
 			}
 			steps++
 			if len(d) > 0 {
-				isAlt := false
 				for _, a := range st.Alts {
 					if len(ppDiff(f.States[a], got)) == 0 {
 						isAlt = true
